@@ -8,12 +8,20 @@ package sflow
 // structures, DESIGN.md A.3); the reader must advance by exactly the record's size.
 
 func VerifSFExtRouter() {
+	// any record length: no panic site reachable, allocation bounded
 	r, buf, pos := verifArbReader()
 	l := verifNondetU32()
 	verifAllocBound(4*(len(buf)-pos) + 2048) // C02: memory in proportion to the octets received
+	decodeExtRouterData(r, l)
+	verifReach("end")
+}
+
+// well-formed extended router records: address type word + 4- or 16-octet next hop + two masks
+func VerifSFExtRouterFields() {
+	r, buf, pos := verifArbReader()
+	l := uint32(16 + 12*verifCase(2))
 	er, err := decodeExtRouterData(r, l)
-	// well-formed: address type word + 4- or 16-octet address + two masks
-	if verifAll(l >= 16, l <= 28, len(buf)-pos >= int(l)) {
+	if len(buf)-pos >= int(l) {
 		verifAssert(err == nil, "ExtRouter: enough octets: must decode")
 		al := int(l) - 12
 		verifAssert(len(er.NextHop) == al, "ExtRouter: NextHop length")
@@ -23,6 +31,8 @@ func VerifSFExtRouter() {
 		verifAssert(er.SrcMask == be32(buf, pos+int(l)-8), "ExtRouter: SrcMask")
 		verifAssert(er.DstMask == be32(buf, pos+int(l)-4), "ExtRouter: DstMask")
 		verifAssert(verifPos(r, len(buf)) == pos+int(l), "ExtRouter: consumes exactly the record length")
+	} else {
+		verifAssert(err != nil, "ExtRouter: short input must fail")
 	}
 	verifReach("end")
 }
